@@ -279,4 +279,224 @@ theorem deduce_count_spec :
   refine ⟨fun _ _ _ => rfl, fun _ _ => rfl, ?_, fun _ => rfl, rfl, rfl⟩
   intro ms; cases ms <;> rfl
 
+/-! ## samples ↔ counts ↔ probabilities -/
+
+/-- the fall-back path of `probs_to_sample_count` (count the `count` samples drawn) -/
+theorem fallback_total (n count : Nat) (fb : List Nat) (hfb : fb.length = count)
+    (hfb' : ∀ i ∈ fb, i < n) :
+    sumI ((countOf n fb).map Int.ofNat) = count ∧ ∀ c ∈ (countOf n fb).map Int.ofNat, 0 ≤ c := by
+  constructor
+  · rw [sumI_map_ofNat, countOf_sum n fb hfb', hfb]
+  · intro c hc
+    simp only [List.mem_map] at hc
+    obtain ⟨a, _, rfl⟩ := hc
+    exact Int.natCast_nonneg a
+
+/-- `probs_to_sample_count_total`: for every probability table, every perturbation returned by
+`np.random.normal`, every sequence of `random.choice` picks and every fall-back sample list, a
+count table that is returned for `count ≥ 1` sums exactly to `count` and has no negative entry
+(so the unsigned native table never under-flows).  Rounding is Python's round-half-to-even. -/
+theorem probs_to_sample_count_total (ps ns : List ℚ) (count : Nat) (picks fb : List Nat)
+    (hc : 1 ≤ count) (hfb : fb.length = count) (hfb' : ∀ i ∈ fb, i < ps.length)
+    (via : Bool) (cs : List ℤ)
+    (h : probsToSampleCount ps ns count picks fb = .done via cs) :
+    sumI cs = count ∧ ∀ c ∈ cs, 0 ≤ c := by
+  unfold probsToSampleCount at h
+  have hc' : ¬ count < 1 := by omega
+  simp only [hc', ↓reduceIte] at h
+  by_cases hl : ns.length ≠ ps.length
+  · simp [hl] at h
+  · simp only [hl, ↓reduceIte] at h
+    have hpert := perturb_nonneg ps ns
+    generalize perturb ps ns = pert at h hpert
+    by_cases hs : sumQ pert = 0
+    · simp only [hs, ↓reduceIte, P2SC.done.injEq] at h
+      obtain ⟨_, rfl⟩ := h
+      exact fallback_total _ _ _ hfb hfb'
+    · simp only [hs, ↓reduceIte] at h
+      have hspos : 0 < sumQ pert := lt_of_le_of_ne (sumQ_nonneg pert hpert) (Ne.symm hs)
+      have hq : ∀ x ∈ pert.map (fun x => 1 / sumQ pert * x), 0 ≤ x := by
+        intro x hx
+        simp only [List.mem_map] at hx
+        obtain ⟨y, hy, rfl⟩ := hx
+        have := hpert y hy
+        positivity
+      generalize pert.map (fun x => 1 / sumQ pert * x) = q at h hq
+      by_cases hm : maxQ q * (count : ℚ) < 1
+      · simp only [hm, ↓reduceIte, P2SC.done.injEq] at h
+        obtain ⟨_, rfl⟩ := h
+        exact fallback_total _ _ _ hfb hfb'
+      · simp only [hm, ↓reduceIte] at h
+        have hcq : (0 : ℚ) < count := by exact_mod_cast hc
+        have hrs : ∀ c ∈ q.map (fun x => roundHalfEven (x * (count : ℚ))), 0 ≤ c := by
+          intro c hcm
+          simp only [List.mem_map] at hcm
+          obtain ⟨y, hy, rfl⟩ := hcm
+          exact roundHalfEven_nonneg _ (mul_nonneg (hq y hy) hcq.le)
+        have hkeys_ne : keysOf (q.map (fun x => roundHalfEven (x * (count : ℚ)))) ≠ [] := by
+          have hmax : 0 < maxQ q := by
+            by_contra hneg
+            have : maxQ q * (count : ℚ) ≤ 0 := mul_nonpos_of_nonpos_of_nonneg (not_lt.1 hneg) hcq.le
+            linarith [not_lt.1 hm]
+          apply keysOf_ne_nil _ (roundHalfEven (maxQ q * (count : ℚ)))
+          · exact List.mem_map.2 ⟨maxQ q, maxQ_mem q hmax, rfl⟩
+          · exact one_le_roundHalfEven _ (not_lt.1 hm)
+        generalize q.map (fun x => roundHalfEven (x * (count : ℚ))) = rs at h hrs hkeys_ne
+        have hkeys := keysOf_lt rs
+        by_cases hd : 0 < (count : ℤ) - sumI rs
+        · simp only [hd, ↓reduceIte] at h
+          cases picks with
+          | nil => simp at h
+          | cons p rest =>
+            simp only [P2SC.done.injEq] at h
+            obtain ⟨_, rfl⟩ := h
+            have hk := getD_keys_lt rs (keysOf rs) hkeys hkeys_ne p
+            have hnn := getD_nonneg rs hrs ((keysOf rs).getD (p % (keysOf rs).length) 0)
+            constructor
+            · rw [sumI_set rs _ _ hk]; omega
+            · exact set_nonneg rs hrs _ _ (by omega)
+        · simp only [hd, ↓reduceIte] at h
+          by_cases hd2 : (count : ℤ) - sumI rs < 0
+          · simp only [hd2, ↓reduceIte] at h
+            have e : -((count : ℤ) - sumI rs) = sumI rs - (count : ℤ) := by omega
+            rw [e] at h
+            cases hr : repairHigh (keysOf rs) rs (sumI rs - (count : ℤ)) picks with
+            | none => simp [hr] at h
+            | some r =>
+              simp only [hr, P2SC.done.injEq] at h
+              obtain ⟨_, rfl⟩ := h
+              obtain ⟨e1, e2, _⟩ :=
+                repairHigh_spec (keysOf rs) picks rs _ r hkeys hkeys_ne hrs (by omega) hr
+              exact ⟨by rw [e1]; omega, e2⟩
+          · simp only [hd2, ↓reduceIte, P2SC.done.injEq] at h
+            obtain ⟨_, rfl⟩ := h
+            exact ⟨by omega, hrs⟩
+
+/-- a request for 0 samples gives the empty table (whose total is 0) -/
+theorem probs_to_sample_count_zero (ps ns : List ℚ) (picks fb : List Nat) :
+    probsToSampleCount ps ns 0 picks fb = .empty := by
+  simp [probsToSampleCount]
+
+/-- `probs_to_sample_count_terminates_fair`: termination of the "too many" repair loop.  A pick
+of a key holding 0 changes nothing, so an adversarial stream can stall the loop for ever; but
+along every stream in which each key of the table is picked at least once (with probability 1 for
+`random.choice`) the loop has finished — it cannot run out of counts to remove because the table
+holds `count + excess > excess`. -/
+theorem probs_to_sample_count_terminates_fair (rs : List ℤ) (count : Nat) (picks : List Nat)
+    (hc : 1 ≤ count) (hrs : ∀ c ∈ rs, 0 ≤ c) (hex : (count : ℤ) < sumI rs)
+    (hfair : ∀ k ∈ keysOf rs, ∃ p ∈ picks, (keysOf rs).getD (p % (keysOf rs).length) 0 = k) :
+    ∃ r, repairHigh (keysOf rs) rs (sumI rs - count) picks = some r ∧
+      sumI r = count ∧ ∀ c ∈ r, 0 ≤ c := by
+  have hne : keysOf rs ≠ [] := by
+    intro hnil
+    have hz : ∀ c ∈ rs, c = 0 := by
+      intro c hcm
+      obtain ⟨i, hi, rfl⟩ := List.getElem_of_mem hcm
+      have := keysOf_compl_zero rs i (by rw [hnil]; simp)
+      rwa [getD_eq_getElem' _ _ hi] at this
+    have := sumI_eq_zero rs hz
+    omega
+  have hsome := repairHigh_fair (keysOf rs) picks rs (sumI rs - count) (keysOf_lt rs) hne hrs
+    (keysOf_compl_zero rs) (by omega) (fun k hk _ => hfair k hk)
+  cases hr : repairHigh (keysOf rs) rs (sumI rs - count) picks with
+  | none => rw [hr] at hsome; simp at hsome
+  | some r =>
+    obtain ⟨e1, e2, _⟩ :=
+      repairHigh_spec (keysOf rs) picks rs _ r (keysOf_lt rs) hne hrs (by omega) hr
+    exact ⟨r, rfl, by rw [e1]; omega, e2⟩
+
+/-- `counts_roundtrip_totals`: (1) counting a sample list gives a table whose total is the number
+of samples; (2) turning a non-negative, non-empty count table into probabilities gives total
+probability 1 and `prob × total = count` entry by entry (zero counts produce no key);
+(3) hence samples → counts → probabilities has total 1 for every non-empty sample list. -/
+theorem counts_roundtrip_totals :
+    (∀ n samples, (∀ s ∈ samples, s < n) → (countOf n samples).sum = samples.length) ∧
+    (∀ cs : List ℤ, (∀ c ∈ cs, 0 ≤ c) → 0 < sumI cs →
+      countsToProbs cs = .ok (cs.map (probOf (sumI cs))) ∧
+      sumQ ((cs.map (probOf (sumI cs))).map getQ) = 1 ∧
+      ∀ c ∈ cs, getQ (probOf (sumI cs) c) * (sumI cs : ℚ) = c) ∧
+    (∀ n samples, (∀ s ∈ samples, s < n) → samples ≠ [] →
+      sumQ ((((countOf n samples).map Int.ofNat).map
+        (probOf (sumI ((countOf n samples).map Int.ofNat)))).map getQ) = 1) := by
+  have part2 : ∀ cs : List ℤ, (∀ c ∈ cs, 0 ≤ c) → 0 < sumI cs →
+      countsToProbs cs = .ok (cs.map (probOf (sumI cs))) ∧
+      sumQ ((cs.map (probOf (sumI cs))).map getQ) = 1 ∧
+      ∀ c ∈ cs, getQ (probOf (sumI cs) c) * (sumI cs : ℚ) = c := by
+    intro cs hnn hpos
+    have hT : ((sumI cs : ℤ) : ℚ) ≠ 0 := by
+      have : (0 : ℚ) < (sumI cs : ℤ) := by exact_mod_cast hpos
+      exact ne_of_gt this
+    refine ⟨?_, ?_, ?_⟩
+    · unfold countsToProbs
+      have : cs.any (· < 0) = false := by
+        simp only [List.any_eq_false, decide_eq_true_eq]
+        intro c hc; have := hnn c hc; omega
+      simp [this]
+    · rw [sumQ_probOf, div_self hT]
+    · intro c _
+      by_cases h0 : c = 0
+      · subst h0; simp [probOf, getQ]
+      · simp only [probOf, h0, ↓reduceIte, getQ]
+        field_simp
+  refine ⟨fun n samples h => countOf_sum n samples h, part2, ?_⟩
+  intro n samples h hne
+  have hsum : sumI ((countOf n samples).map Int.ofNat) = (samples.length : ℤ) := by
+    rw [sumI_map_ofNat, countOf_sum n samples h]
+  have hpos : 0 < sumI ((countOf n samples).map Int.ofNat) := by
+    rw [hsum]
+    have : 0 < samples.length := List.length_pos_iff.2 hne
+    omega
+  have hnn : ∀ c ∈ (countOf n samples).map Int.ofNat, 0 ≤ c := by
+    intro c hc
+    simp only [List.mem_map] at hc
+    obtain ⟨a, _, rfl⟩ := hc
+    exact Int.natCast_nonneg a
+  exact (part2 _ hnn hpos).2.1
+
+/-! ## non-vacuity: the hypotheses of the theorems above are satisfiable and the conclusions are
+about runs that really happen (closed terms evaluated by the kernel) -/
+
+-- a history that hits the sample bound (2 outputs, third `sel` is ignored: the loop has stopped)
+example : (loop ⟨2, some 5, false⟩ 0
+    [⟨false, 2, .sel⟩, ⟨false, 2, .phys⟩, ⟨false, 2, .sel⟩, ⟨false, 2, .sel⟩]) =
+    ⟨2, 3, 0, 1, 1, 2, none⟩ := by decide
+-- a history that hits the shot bound first
+example : (loop ⟨2, some 3, false⟩ 0
+    [⟨false, 2, .logic⟩, ⟨false, 2, .phys⟩, ⟨false, 1, .sel⟩, ⟨false, 2, .sel⟩]) =
+    ⟨1, 3, 1, 1, 1, 1, none⟩ := by decide
+-- an empty batch from the generator stops the loop (`IndexError` in the code)
+example : (loop ⟨2, none, false⟩ 0 [⟨false, 0, .sel⟩]).halt = some .exhausted := by decide
+-- a generator request really occurs and is 1 ≤ 2 ≤ 2
+example : (step ⟨2, some 5, false⟩ (loop ⟨2, some 5, false⟩ 0 []) ⟨false, 2, .sel⟩).2.asked = some 2 := by
+  decide
+-- perf: 1 selected, 1 logic-rejected, 1 phys-rejected → (2/3, 1/2)
+example : perf (loop ⟨5, none, false⟩ 3 [⟨false, 0, .sel⟩, ⟨false, 0, .logic⟩, ⟨false, 0, .phys⟩]) =
+    (2 / 3, 1 / 2) := by decide +kernel
+-- `_compute_samples_with_perf` with filter 2 really shrinks the shot limit: ceil(10·(1/4)/(1-1/2)) = 5
+example : computeSamplesWithPerf 2 7 (1 / 4) (1 / 2) (some 10) = .ok (5, some 5) := by decide +kernel
+-- the pipeline returns results under the hypotheses of `samples_pipeline_bound`
+example : samplesPipeline ⟨some 3, some 2, 0, 1, 0, fun n => n, false⟩
+    [⟨false, 1, .sel⟩, ⟨false, 1, .sel⟩, ⟨false, 1, .sel⟩] =
+    .result 2 1 1 (some ⟨2, 2, 0, 0, 2, 2, none⟩) := by decide +kernel
+example : samplesPipeline ⟨none, some 2, 0, 1, 0, fun n => n, false⟩ [] = .error "TypeError" := by
+  decide +kernel
+example : samplesPipeline ⟨none, none, 0, 1, 0, fun n => n, false⟩ [] = .result 0 0 1 none := by
+  decide +kernel
+-- `probs_to_sample_count`: too few (2+2 = 4 < 5: ties round to even), too many (4+4 = 8 > 7), fall-back
+example : probsToSampleCount [1 / 2, 1 / 2] [0, 0] 5 [0] [] = .done false [3, 2] := by decide +kernel
+example : probsToSampleCount [1 / 2, 1 / 2] [0, 0] 7 [1] [] = .done false [4, 3] := by decide +kernel
+example : probsToSampleCount [1 / 2, 1 / 4, 1 / 4] [-1, -1, -1] 3 [] [0, 0, 1] = .done true [2, 1, 0] := by
+  decide +kernel
+-- a stalled repair (the stream only ever picks a key that holds 0) and its fair completion
+example : repairHigh [0, 1] [0, 9] 2 [0, 0, 0, 0] = none := by decide
+example : repairHigh [0, 1] [0, 9] 2 [0, 0, 0, 1] = some [0, 7] := by decide
+example : ∃ r, repairHigh (keysOf [4, 4]) [4, 4] (sumI [4, 4] - (7 : Nat)) [0, 1] = some r ∧
+    sumI r = (7 : Nat) ∧ ∀ c ∈ r, 0 ≤ c :=
+  probs_to_sample_count_terminates_fair [4, 4] 7 [0, 1] (by decide) (by decide) (by decide) (by decide)
+-- conversions
+example : countOf 3 [0, 2, 2, 0, 0] = [3, 0, 2] := by decide
+example : countsToProbs [3, 0, 2] = .ok [some (3 / 5), none, some (2 / 5)] := by decide +kernel
+example : countsToProbs [3, -1] = .error "RuntimeError" := by decide +kernel
+example : (perfectLoop 2500 2500 0) = (2500, [1000, 1000, 500]) := by decide +kernel
+
 end PM.C09
